@@ -631,6 +631,9 @@ class AttributeCollection(MutableMapping[int, Attribute]):
                     total += 1
             return total
 
+        # RFC 6793 6: confederation segments are not valid in an AS4_PATH and are discarded
+        as4segments = [seg for seg in as4path.aspath if isinstance(seg, (SET, SEQUENCE))]
+
         len2 = count(as2path)
         len4 = count(as4path)
 
@@ -658,7 +661,7 @@ class AttributeCollection(MutableMapping[int, Attribute]):
                     continue
                 # a confederation segment in front of, or next to, a segment which is kept
                 segments.append(seg)
-            segments.extend(as4path.aspath)
+            segments.extend(as4segments)
         # the merged path carries AS4_PATH's ASNs, which do not fit the 2-byte packing
         aspath = AS2Path.make_aspath(segments, asn4=True)
         self.add(aspath, key)
